@@ -170,7 +170,7 @@ def _rules():
 
 # property -> mechanisms it depends on *in addition to* the clauses its own module already runs
 DEPENDS = {
-    "C01": ["squash", "splice", "partial", "flags", "stash-deletes", "lookup", "content", "export", "liveness", "block-wire", "merge", "state-vector", "identity", "weak-wire", "update-events", "creation"],
+    "C01": ["squash", "splice", "partial", "flags", "stash-deletes", "lookup", "content", "export", "liveness", "block-wire", "merge", "state-vector", "identity", "weak-wire", "update-events", "creation", "delete-set"],
     "C02": ["stash-deletes", "lookup", "export", "block-wire", "merge", "state-vector"],
     "C03": ["splice", "conflict", "lookup", "content", "map-api", "text-units", "creation", "liveness", "type-api"],
     "C04": ["splice", "dependency", "stash-deletes", "lookup", "content", "block-iter", "update-events", "liveness"],
